@@ -160,7 +160,7 @@ def parse_const(c):
     if c.startswith('b"') and c.endswith('"'):
         u = _unescape(c[2:-1])
         return ('bytes', u if isinstance(u, bytes) else u.encode('utf-8'))
-    m = re.match(r'(?:.*::)?([ui](?:8|16|32|64|128|size))::(MAX|MIN)$', c)
+    m = re.match(r'(?:.*::)?([ui](?:8|16|32|64|128|size))::(MAX|MIN)$', c) or re.match(r'.*<impl ([ui](?:8|16|32|64|128|size))>::(MAX|MIN)$', c)
     if m:
         t = m.group(1)
         w = W[t]
@@ -175,7 +175,7 @@ def parse_const(c):
     m = re.match(r'(-?(?:[\d.]+(?:[eE][-+]?\d+)?|inf|NaN))f64$', c)
     if m:
         return ('f64', float(m.group(1).replace('NaN', 'nan')))
-    m = re.match(r'(?:.*::)?f64::(\w+)$', c)
+    m = re.match(r'(?:.*::)?f64::(\w+)$', c) or re.match(r'.*<impl f64>::(\w+)$', c)
     if m and m.group(1) in ('NAN', 'INFINITY', 'NEG_INFINITY', 'MAX', 'MIN', 'EPSILON'):
         import sys
         return ('f64', {'NAN': float('nan'), 'INFINITY': float('inf'), 'NEG_INFINITY': float('-inf'),
